@@ -248,6 +248,39 @@ fn main() {
                 None => println!("got=build-failed"),
             }
         }
+        // compact_range_leftovers : two overlapping tables are flushed, the whole key space is compacted, another table is flushed and
+        // everything compacted again; afterwards the table files on disk must be exactly the tables of the current version
+        "compact_range_leftovers" => {
+            use raindb::WriteOptions;
+            let mut o = raindb::DbOptions::with_memory_env();
+            o.db_path = "db".to_string();
+            o.create_if_missing = true;
+            let db = raindb::DB::open(o.clone()).expect("open");
+            for round in 0..2 {
+                for k in ["a", "m", "z"] {
+                    db.put(WriteOptions::default(), k.as_bytes().to_vec(), format!("{}{}", k, round).into_bytes()).unwrap();
+                }
+                let _ = db.flush_for_verif();
+            }
+            db.compact_range(None..None);
+            db.put(WriteOptions::default(), b"m".to_vec(), b"m-last".to_vec()).unwrap();
+            db.compact_range(None..None);
+            db.put(WriteOptions::default(), b"q".to_vec(), b"q".to_vec()).unwrap();
+            let _ = db.flush_for_verif();
+            let layout: String = db.get_descriptor(raindb::db::DatabaseDescriptor::SSTables).map(|d| format!("{:?}", d)).unwrap_or_default();
+            // table numbers in the layout: "<n>(size:"
+            let compact: String = layout.chars().filter(|c| !c.is_whitespace()).collect();
+            let parts: Vec<&str> = compact.split("(size:").collect();
+            let mut in_version: Vec<u64> = parts[..parts.len().saturating_sub(1)].iter().filter_map(|part| {
+                let digits: String = part.chars().rev().take_while(|c| c.is_ascii_digit()).collect::<String>().chars().rev().collect();
+                digits.parse::<u64>().ok()
+            }).collect();
+            in_version.sort();
+            let mut on_disk = v::table_numbers(&o);
+            on_disk.sort();
+            println!("on_disk={}", join(&on_disk));
+            println!("in_version={}", join(&in_version));
+        }
         // trivial_move n0 n1 : level 1 holds n0 (1..2) adjacent files which are the chosen inputs, level 2 holds n1 files that
         // overlap them; after the real input finalisation the manifest is asked whether this is a trivial move
         "trivial_move" => {
